@@ -242,7 +242,7 @@ func runR9(c *core.Ctx) {
 			if why := checkDepthGuard(c, g, comp, row); why != "" {
 				c.Bad(cn, pos, "recursion cycle {%s} (%s): %s", strings.Join(names, ", "), row.reason, why)
 			} else {
-				c.OK(cn, pos, "guarded: %s; every cycle passes through %s, which returns once its depth counter reaches %s and increments it before each recursive call", row.reason, row.guard, row.limit)
+				c.OK(cn, pos, "guarded: %s; every cycle passes through %s, which returns once its depth counter reaches %s increments it before each recursive call and decrements it afterwards", row.reason, row.guard, row.limit)
 			}
 		default:
 			c.OK(cn, pos, "%s: %s", row.class, row.reason)
@@ -334,6 +334,9 @@ func checkDepthGuard(c *core.Ctx, g *callgraph.Graph, comp []*ssa.Function, row 
 				if is, ok := st.(*ast.IfStmt); ok {
 					if x := depthGuardCounter(c.Prog, is, row.limit); x != "" {
 						ctr, inc = x, false
+						if is.Init != nil && incrementsExpr(is.Init, x) {
+							inc = true // `if ctr++; ctr > LIMIT { return ... }`
+						}
 					}
 				}
 				if ctr != "" && incrementsExpr(st, ctr) {
@@ -341,6 +344,26 @@ func checkDepthGuard(c *core.Ctx, g *callgraph.Graph, comp []*ssa.Function, row 
 				}
 			}
 			if ctr != "" && inc {
+				// the counter must come back down once the recursive call has returned,
+				// otherwise it counts containers instead of nesting depth
+				dec := false
+				for _, st := range lists[li][:idx[li]] {
+					if ds, ok := st.(*ast.DeferStmt); ok && strings.Contains(exprStr(ds.Call.Fun), ctr+"--") {
+						dec = true
+					}
+				}
+				for _, st := range lists[li][idx[li]+1:] {
+					if decrementsExpr(st, ctr) {
+						dec = true
+					}
+				}
+				if _, isRet := lists[li][idx[li]].(*ast.ReturnStmt); isRet && !dec {
+					bad = fmt.Sprintf("%s: the depth counter %s is incremented before the recursive call of %s but the call's result is returned directly, so the counter is never decremented: it counts every container ever parsed instead of the nesting depth, and wide shallow documents fail with a depth error", c.Prog.Fset.Position(call.Pos()), ctr, o.Name())
+					return
+				}
+				if !dec {
+					bad = fmt.Sprintf("%s: the depth counter %s is not decremented after the recursive call of %s returns", c.Prog.Fset.Position(call.Pos()), ctr, o.Name())
+				}
 				return
 			}
 			if ctr != "" && !inc {
@@ -469,6 +492,18 @@ func depthGuardCounter(p *core.Program, is *ast.IfStmt, limit string) string {
 		return ""
 	}
 	return exprStr(ctr)
+}
+
+func decrementsExpr(st ast.Stmt, x string) bool {
+	switch s := st.(type) {
+	case *ast.IncDecStmt:
+		return s.Tok == token.DEC && exprStr(s.X) == x
+	case *ast.AssignStmt:
+		if s.Tok == token.SUB_ASSIGN && len(s.Lhs) == 1 && exprStr(s.Lhs[0]) == x {
+			return true
+		}
+	}
+	return false
 }
 
 func incrementsExpr(st ast.Stmt, x string) bool {
